@@ -92,7 +92,7 @@ check(
 check(
     "C14",
     "runtime monitoring: registration histories (bounded-exhaustive over a fixed alphabet of concrete calls + random) executed on fresh real UnitDatabases and compared step by step with an executable reference model of the documented registration rules; well-formedness invariants evaluated through the public getters after every step; snapshot equality across rejected calls; exhaustive invariant sweep of the shipped databases",
-    "Held for every sequence up to depth 3 (thorough 4) over 32 concrete calls (duplicates, second bases, overrides, from_category, legacy spellings, limits, invalid arguments, categories named like another quantity type) and thousands of random 5-25 call histories: accept/reject, unit order, default unit/value, limits and valid units as the model predicts; I1 one type per unit, I2 identity base first, I3 category units drawn from the type and default value inside limits, I4 valid Scalars for every category/unit, I5 rejected calls change nothing; I1-I4 for all units/categories of the three shipped databases.",
+    "Held for every sequence up to depth 3 (thorough 4) over 33 concrete calls (+ 84 scripted name-clash histories) (duplicates, second bases, overrides, from_category, legacy spellings, limits, invalid arguments, categories named like another quantity type) and thousands of random 5-25 call histories: accept/reject, unit order, default unit/value, limits and valid units as the model predicts; I1 one type per unit, I2 identity base first, I3 category units drawn from the type and default value inside limits, I4 valid Scalars for every category/unit, I5 rejected calls change nothing; I1-I4 for all units/categories of the three shipped databases.",
     "A unit registered under a legacy-spelled symbol is part of the alphabet (it must convert with its own functions); a type without any base is legal and only counted; captions, exception classes and the valid-unit fallback are not modelled.",
     "4/C14",
 )
@@ -113,7 +113,7 @@ check(
 check(
     "C17",
     "runtime monitoring: action histories (bounded-exhaustive over a fixed alphabet + random) executed on fresh real UnitSystemManagers with harness listeners on on_current / on_unit_changed, compared after every step with an executable reference model that also predicts the callback log; rejected calls must leave state and log unchanged",
-    "Held for every applicable sequence up to depth 3 (thorough 4) over 28 concrete actions and thousands of random 10-60 action histories over 3 ids: accept/reject, id set and order, current id or null, template, every mapping, exact callback log, GetCategoryDefaultUnit/GetQuantityDefaultUnit/GetUnitSystemById/GetNewId, ConvertToCurrent and ConvertScalarToCurrent (value, unit, category) against the database conversion, no two systems sharing a mapping object.",
+    "Held for every applicable sequence up to depth 3 (thorough 4) over 37 concrete actions (read-only systems, zero amounts, foreign units among them) and thousands of random 10-60 action histories over 3 ids: accept/reject, id set and order, current id or null, template, every mapping, exact callback log, GetCategoryDefaultUnit/GetQuantityDefaultUnit/GetUnitSystemById/GetNewId, ConvertToCurrent and ConvertScalarToCurrent (value, unit, category) against the database conversion, no two systems sharing a mapping object.",
     "Selection only among registered systems and None; each SetCurrent call announces once; mapping units belong to the category's type; read-only flag not modelled.",
     "4/C17",
 )
